@@ -74,6 +74,8 @@ def layered_scenarios(rnd, recs3, recs2, budget, recs4=()):
         for f in K:
             variants.append(("reject", f))
             variants.append(("owner", f))
+            if rnd.random() < 0.5:
+                variants.append((rnd.choice(["fileperm", "dirperm"]), f))
             if not (f[1] == 0 and x["main"][f[0] - 1] != "regular"):
                 variants.append(("malformed", f))
         # symbolic links to nowhere: as main file of each layer in turn (found by lstat, cannot be opened: the scan goes on
@@ -112,6 +114,12 @@ def check(pid, tier, seed):
         elif kind == "owner":
             kw["attrs"] = {f: ("foreign", "ok", False)}
             kw["flags"] = {"owner": 1}
+        elif kind == "fileperm":
+            kw["attrs"] = {f: ("ok", "ok", False, "bad", "ok")}
+            kw["flags"] = {"perms": 2}
+        elif kind == "dirperm":
+            kw["attrs"] = {f: ("ok", "ok", False, "ok", "bad")}
+            kw["flags"] = {"perms": 2}
         elif kind == "malformed":
             kw["malformed"] = [f]
         elif kind == "dangling":
@@ -142,7 +150,7 @@ def check(pid, tier, seed):
             nn += 1
 
     def fp(begin, ev):
-        kinds = sorted({k for x in begin["faults"] for k in x["x"]} | ({"owner"} if begin["flags"]["owner"] else set()))
+        kinds = sorted({k for x in begin["faults"] for k in x["x"]} | ({"owner"} if begin["flags"]["owner"] else set()) | ({"perms"} if begin["flags"].get("perms") == "strict" else set()))
         pos = "later"
         return "C20:trace:%s:%s" % (ev["e"], "+".join(kinds) or "nofault")
     bad = validate_scenarios(events, verdict, "C20", fp)
@@ -235,7 +243,7 @@ def check(pid, tier, seed):
         nvg = valgrind_sample(cases, rnd, verdict)
     rc = verdict.finish()
     cov = {"evaluations": len(scen) + len(single), "distinct_nontrivial": nn + sum(1 for s in single if s["init"] == "object" or s["name"].startswith("newopt")),
-           "rule": "fault enumeration: %d layered-read scenarios = trees (3 layers via econf_readConfigWithCallback with an option-initialised key_file; 2 layers via econf_readDirsWithCallback, econf_readDirsHistoryWithCallback, econf_readConfigWithCallback+PARSING_DIRS) x {no fault} + for EACH consulted file in turn {callback rejection, foreign owner under econf_requireOwner, malformed line, drop-in that is a symbolic link to nowhere} and main files that are symbolic links to nowhere in each layer; + %d single calls on failing paths (missing / malformed file, rejected single file, unknown and repeated option items, no file with NULL- and option-initialised key_file, NULL arguments, merge with NULL, free(NULL)) %d random conventional files of the plain / JOIN_SAME_ENTRIES / PYTHON_STYLE grammars (15 %% with a malformed line) read through an option object, listed in full and released, and %d random API histories of 5..60 calls. Every scenario runs twice in one process; ASan's live-byte count around the second run must not move after the caller released all valid handles (Trace_Lifecycle: heap_delta = 0, out-pointer in OutPtrAllowed, free functions return NULL; Trace_Layers: return code, callbacks, content). ASan aborts on double free / use after free. valgrind memcheck sample: %d. non-trivial = fault at a position >= 2 or an option-initialised key_file." % (
+           "rule": "fault enumeration: %d layered-read scenarios = trees (3 layers via econf_readConfigWithCallback with an option-initialised key_file; 2 layers via econf_readDirsWithCallback, econf_readDirsHistoryWithCallback, econf_readConfigWithCallback+PARSING_DIRS) x {no fault} + for EACH consulted file in turn {callback rejection, foreign owner under econf_requireOwner, file mode or directory mode refused under econf_requirePermissions, malformed line, drop-in that is a symbolic link to nowhere} and main files that are symbolic links to nowhere in each layer; + %d single calls on failing paths (missing / malformed file, rejected single file, unknown and repeated option items, no file with NULL- and option-initialised key_file, NULL arguments, merge with NULL, free(NULL)) %d random conventional files of the plain / JOIN_SAME_ENTRIES / PYTHON_STYLE grammars (15 %% with a malformed line) read through an option object, listed in full and released, and %d random API histories of 5..60 calls. Every scenario runs twice in one process; ASan's live-byte count around the second run must not move after the caller released all valid handles (Trace_Lifecycle: heap_delta = 0, out-pointer in OutPtrAllowed, free functions return NULL; Trace_Layers: return code, callbacks, content). ASan aborts on double free / use after free. valgrind memcheck sample: %d. non-trivial = fault at a position >= 2 or an option-initialised key_file." % (
                len(scen), len(single) - nh - nf, nf, nh, nvg),
            "samples": lev[:2] + lev[-1:], "exhaustive": False, "model_states": mc.distinct, "traces_validated_against_impl": len(lev) - len(mism),
            "trusted_base": ["gcc ASan allocator accounting (__sanitizer_get_current_allocated_bytes)", "TLC 1.8.0", "drv.c", "valgrind memcheck (thorough)"]}
